@@ -294,6 +294,8 @@ def plan(inp, forms, with_short=True):
         if c["src"] in ("parsedXerces", "wrappedXercesDOM"):
             if "nsaxis" in ctl:
                 runs.append(dict(c, xml="in_xmlnsxml.xml", ctrl="xmlnsXml:" + fkey(c)))
+            if "nocdata" in ctl:
+                runs.append(dict(c, xml="in_nocdata.xml", ctrl="noCdata:" + fkey(c)))
     runs += sel
     if with_short:
         cbs = [c for c in sel if c["out"] == "callback"]
